@@ -45,7 +45,16 @@ def parseStmt (j : Json) : Except String Stmt := do
   let tag ← (← j.getObjVal? "tag").getNat?
   let body ← parseBody (← j.getObjVal? "body")
   let touch ← (← j.getObjVal? "touch").getBool?
-  pure ⟨rq, cx, name, preds, acc, perm, isexc, xonly, tag, body, touch⟩
+  let kind ← match (← (← j.getObjVal? "vk").getStr?) with
+    | "fn2" => pure ViewKind.fnCR
+    | "fn1" => pure ViewKind.fnR
+    | "cls2" => pure ViewKind.clsCR
+    | "cls2c" => pure ViewKind.clsCRcall
+    | "cls1" => pure ViewKind.clsR
+    | "inst2" => pure ViewKind.instCR
+    | "inst1" => pure ViewKind.instR
+    | k => throw s!"bad view kind {k}"
+  pure ⟨rq, cx, name, preds, acc, perm, isexc, xonly, tag, body, touch, kind⟩
 
 def parseWorld (j : Json) : Except String World := do
   let e := fun (f : String) => do parseExc (← j.getObjVal? f)
@@ -82,7 +91,7 @@ def respJson : Except Exc Resp → Json
 
 def seenJson : Option Seen → Json
   | none => Json.null
-  | some s => Json.arr #[toJson s.context, optJson s.exception, optJson s.excInfo, optJson s.response]
+  | some s => Json.arr #[optJson s.userContext, optJson s.exception, optJson s.excInfo, optJson s.response]
 
 def main : IO Unit := jsonDriver fun j => do
   let stmts ← (← (← j.getObjVal? "stmts").getArr?).toList.mapM parseStmt
